@@ -723,12 +723,20 @@ def traverse(node):
         child = traversing.child
         child_id = id(child)
 
-        if child_id in visited:
-            continue
+        # Only containers and objects are expanded at most once. Equal leaves
+        # (None, small numbers, interned strings) are often the same object,
+        # and every occurrence of a leaf is reported.
+        is_container = isinstance(child, (list, tuple, dict, ParsedObject))
+        is_repeat = is_container and child_id in visited
 
-        visited.add(child_id)
+        if is_container:
+            visited.add(child_id)
+
         stack.append(traversing._replace(is_finished=True))
         yield traversing
+
+        if is_repeat:
+            continue
 
         def extend(items):
             stack.extend(reversed(list(items)))
